@@ -63,7 +63,7 @@ BIAS = {
 class AclMachine(Machine):
     name = "M-ACL"
     PROPS = ("C02", "C04", "C10", "C15", "C17", "C19")
-    QUICK_RUNS = {"C17": 320, "C02": 240, "C04": 240, "C10": 320, "C15": 320, "C19": 280}
+    QUICK_RUNS = {"C17": 2600, "C02": 1600, "C04": 1600, "C10": 2000, "C15": 2000, "C19": 1800}
     THOROUGH_BUDGET_S = 900
     RULE = (
         "one evaluation = one seeded history (<= 40 ops; quick <= 14) of public operations on <= 2 "
@@ -288,6 +288,13 @@ class AclMachine(Machine):
         except DOCUMENTED as ex:
             self._fail("C17", "C17.fixpoint", f"{where}: rendered text does not parse back: "
                                               f"{type(ex).__name__}: {ex}\n{text}", **disc)
+        heads = [r.text for r in m.flat()
+                 if r.kind == "remark" and m.group_by and r.text.startswith(m.group_by)]
+        if again.line != text and len(heads) != len(set(heads)):
+            self.probes["dup_heading"] += 1
+            self._fail("C15", "C15.conservation",
+                       f"{where}: re-parsing with group_by and repeated heading texts loses "
+                       f"entries:\n{text}\n--- re-parsed ---\n{again.line}", dup_heading=True)
         if again.line != text:
             self._fail("C17", "C17.fixpoint", f"{where}: rendered text is not a fix-point of the "
                                               f"parser:\n{text}\n--- re-parsed ---\n{again.line}",
